@@ -54,6 +54,14 @@ def gen(rng, tier):
                          ws=("none", "mixed"), gen_kw=kw)
     glr = lf.bnf_cases(rng, n // 2, tts=("LALR_RN",), algo="GLR", max_len=3, n_sent=12, n_mut=4,
                        ws=("mixed",), gen_kw=kw, glr_scope=True)
+    # user Layout rules (whitespace / line comments / nested block comments): the layout parser runs with the parser's
+    # own context (LR) resp. GSS head (GLR), so spans after layout are a separate code path from whitespace skipping
+    for layout in ("ws", "comments", "nested"):
+        lkw = dict(p_empty=0.3, layout=layout)
+        wss = ("mixed",) if layout == "ws" else ("mixed", "layout")
+        cases += lf.bnf_cases(rng, max(6, n // 8), tts=("LALR_PAGER",), algo="LR", max_len=3, n_sent=10, n_mut=3, ws=wss, gen_kw=lkw)
+        glr += lf.bnf_cases(rng, max(6, n // 8), tts=("LALR_RN",), algo="GLR", max_len=3, n_sent=10, n_mut=3, ws=wss, gen_kw=lkw,
+                            glr_scope=True)
     return cases, glr
 
 
@@ -79,7 +87,8 @@ def run(rep, tier, seed):
 def check(rep, cases, glr, proofs_ok):
     rep.cov["rule"] = ("random BNF grammars with nullable symbols anywhere (p_empty=0.3), terminals of 1-4 UTF-8 bytes; "
                        "LR (LALR_PAGER, model+oracle) and GLR (LALR_RN, oracle on every tree of the forest up to 64); inputs: "
-                       "strings up to length 3, sentences, mutations, with whitespace/newline/CRLF/NBSP insertions; "
+                       "strings up to length 3, sentences, mutations, with whitespace/newline/CRLF/NBSP insertions; the same with user "
+                       "Layout rules (whitespace, line comments, nested block comments) for LR and GLR; "
                        "distinct = (grammar, settings, input)")
     def orc(c):
         bad = oracle(c)
